@@ -601,7 +601,11 @@ func encodeXtext(raw string) string {
 			// printable non-space US-ASCII except '+' and '='
 			out.WriteRune(ch)
 		default:
+			// hexchar is "+" followed by exactly two hex digits
 			out.WriteRune('+')
+			if ch < 0x10 {
+				out.WriteRune('0')
+			}
 			out.WriteString(strings.ToUpper(strconv.FormatInt(int64(ch), 16)))
 		}
 	}
